@@ -84,6 +84,7 @@ fn main() {
         threads,
         only_case,
         scale,
+        out_dir: std::env::var("VERIF_OUT").unwrap_or_else(|_| verif_dir.clone()),
         verif_dir,
     };
     api::install_panic_hook();
